@@ -886,8 +886,10 @@ class Merger:
             self.logger.debug(
                 "Merged document is now:", prefix="Merger::merge_with:  ",
                 data=self.data, footer="     ***** ***** *****")
-            if isinstance(rhs, (dict, list, CommentedSet, set)):
-                # Only Scalar values need further processing
+            if (insert_at.is_root
+                and isinstance(rhs, (dict, list, CommentedSet, set))
+            ):
+                # Only Scalars and novel merge paths need further processing
                 return
 
         # Resolve any anchor conflicts
